@@ -148,6 +148,57 @@ def main():
             h.violation(f"crash:{kind}", f"{tag}: raised {type(e).__name__}: {e}", input={**c, "object": kind})
         if ci < 3:
             h.sample({"case": tag})
+    # ---- several objects built on ONE WCS object (two bands of an exposure; an image and its data-less description): each of them
+    # is made negative-parity; for each, rows and WCS must agree afterwards, whatever was done to the others before
+    for si in range(8 if h.deep else 4):
+        c = gen_case(rng)
+        if c["det"] >= 0:          # start from positive parity (sign +1), so that a flip is due
+            c = dict(c, cdelt=(-c["cdelt"][0], c["cdelt"][1]), det=-c["det"]) if c["det"] != 0 else c
+        H, W = c["h"], c["w"]
+        shared = make_wcs(c["cdelt"], c["pc"], c["crpix"])
+        px = np.array([[0, 0], [W - 1, 0], [0, H - 1], [W - 1, H - 1], [W / 2.0, H / 3.0]], dtype=float)
+        tag = f"shared WCS object, {c['style']} pc={c['pc']} cdelt={c['cdelt']} crpix={c['crpix']} {W}x{H}"
+        try:
+            with warnings.catch_warnings():
+                warnings.simplefilter("ignore")
+                world0 = shared.deepcopy().all_pix2world(px, 0)
+                p_start = Image.from_array(np.zeros((H, W), dtype=np.float32), wcs=shared.deepcopy()).get_parity_sign()
+                datas = [((np.arange(H * W).reshape(H, W) * (b + 1)) % 251).astype(np.float32) for b in range(2)]
+                objs = [Image.from_array(datas[0].copy(), wcs=shared), ImageDescription(mode=ImageMode.F32, shape=(H, W), wcs=shared) if si % 2 else None,
+                        Image.from_array(datas[1].copy(), wcs=shared)]
+                bad = None
+                for oi, o in enumerate(objs):
+                    if o is None:
+                        continue
+                    o.ensure_negative_parity()
+                    if o.get_parity_sign() != -1:
+                        bad = f"object #{oi} has parity sign {o.get_parity_sign()} after ensure_negative_parity"
+                        break
+                    if isinstance(o, Image):
+                        rows = o.asarray()
+                        src = datas[0] if oi == 0 else datas[1]
+                        # the object started with parity `p_start`: a flip (rows reversed, WCS reflected) is due iff it was +1
+                        flipped = p_start == 1
+                        if not np.array_equal(rows, src[::-1] if flipped else src):
+                            bad = (f"object #{oi} (the {'first' if oi == 0 else 'second'} image on the shared WCS object; start parity {p_start:+d}): its rows are "
+                                   f"{'not reversed although a flip was due' if flipped else 'changed although no flip was due'}")
+                            break
+                        px2 = px.copy()
+                        if flipped:
+                            px2[:, 1] = H - 1 - px[:, 1]
+                        world1 = o.wcs.all_pix2world(px2, 0)
+                        dd = np.abs(world1 - world0)
+                        dd[:, 0] = np.minimum(dd[:, 0], 360 - dd[:, 0])
+                        if dd.max() > 1e-9:
+                            bad = (f"object #{oi} (the {'first' if oi == 0 else 'second'} image on the shared WCS object; start parity {p_start:+d}): after ensure_negative_parity its rows are "
+                                   f"{'reversed' if flipped else 'unchanged'} but its WCS puts the pixels up to {dd.max():.3g} deg away from where they were")
+                            break
+                h.case(("shared-wcs", c["style"], c["pc"], c["cdelt"], c["crpix"], H, si % 2))
+                h.count("object", "shared-wcs")
+                if bad:
+                    h.violation("flip:shared-wcs", f"{tag}: {bad}", input={**c, "objects": "image, " + ("description, " if si % 2 else "") + "image on one WCS object"}, observed=bad)
+        except Exception as e:
+            h.violation("crash:shared-wcs", f"{tag}: raised {type(e).__name__}: {e}", input=c)
     try:
         out = lean_driver(lines)
         diff_streams(h, "header-vs-model", lines, py, out)
